@@ -14,6 +14,9 @@ THEOREMS = [
     'C03_placement_estimate_covers : ... exists cc rc, compute_grid_size_estimate ec er children = Ok (cc, rc) /\\ ... /\\ '
     'Forall (fun c => axis_fits (c_col c) ec cc /\\ axis_fits (c_row c) er rc) children',
     'C03_placement_search_both_terminates : fuel >= (end_s - sidx) * (primary_len + 2) + (end_p + 2 - pidx) + 2 -> search_both ... = Ok ...',
+    'C03_grid_container_never_panics : grid_domain st children inp -> grid_no_panic st children inp = true  (any Num; the whole grid '
+    'container: placement arithmetic, item track indices, absolute children\'s lines; explicit counts <= 64, <= 64 children, lines in [-64,64], spans in [1,64])',
+    'C03_grid_alg_total_is_grid_alg : grid_domain st children inp -> grid_alg_total st children inp = grid_alg st children inp',
 ]
 
 
@@ -152,8 +155,9 @@ def run(rep, tier, seed, replay=None):
             rep.add_violation('out-of-range child index: %s' % l, {'cmd': 'vh c03 indexerrors', 'line': l})
         if known_lines:
             rep.known.append(kf[0]['line'].replace('known: property=C03 ', '') + '  [%d of %d out-of-range calls of this run]' % (len(known_lines), int(m_.group(1))))
-    rep.cov['explanation'] = ('Totality is a theorem only for grid placement (Props/C03.v: no overflow, no out-of-bounds, no negative expansion, '
-                              'termination, on the stated domain), tied by the placement correspondence in release and debug builds. Everything else in '
+    rep.cov['explanation'] = ('Totality is a theorem for grid placement (Props/C03.v: no overflow, no out-of-bounds, no negative expansion, '
+                              'termination, on the stated domain), tied by the placement correspondence in release and debug builds, and for the panic '
+                              'sites of the whole grid container model (C03_grid_container_never_panics: item and absolute-child track indices). Everything else in '
                               'C03 (no panic / hang / blow-up / non-finite output anywhere in compute_layout) is explored: regression corpus of repaired '
                               'defects, placement oracle, and a sandboxed whole-engine fuzz (ulimit -v, watchdog).')
     n = 3000 if tier == 'quick' else 60000
